@@ -440,6 +440,19 @@ def judge(cx, behaviours, trace, rejected, crash, trace_module, play_cmd="play",
                 cx.violations.append((what, d))
                 return
         if not c2:
+            # the death may need what the process accumulated over the preceding executions (memory, pools):
+            # replay the window that led to it
+            start = max(0, i0 - 300)
+            win = os.path.join(cx.scratch, "win-crash.ndjson")
+            open(win, "w").write("\n".join(beh_lines[start:i0 + 1]) + "\n")
+            for attempt in range(2):
+                t3, c3 = play(cx, win, "recrash-win", cmd=play_cmd, extra=(play_extra or []) + ["-seedindex", str(start)])
+                if c3:
+                    what = "server process crashed after a sequence of executions: " + first_panic_line(c3["output"])
+                    d = bundle(cx, what, "\n".join(beh_lines[start:i0 + 1]), [], c3["output"], play_cmd=play_cmd,
+                               trace_module=trace_module, trace_cfg=trace_cfg, extra={"seedindex": start})
+                    cx.violations.append((what, d))
+                    return
             raise Machinery("harness crash near behaviour %d did not reproduce:\n%s" % (i0, crash["output"]))
         what = "server process crashed: " + first_panic_line(c2["output"])
         d = bundle(cx, what, beh_lines[i], [], c2["output"], play_cmd=play_cmd, trace_module=trace_module,
